@@ -33,7 +33,7 @@ LEVEL_NOTE = ('Sign convention inherited from C11: odd-j modes are -sin(|m| thet
               'every call with the Lean model run at Float; basis/compose values to 1e-8, fit/remove to 1e-10 x max(1, cond²) — the bound on the Float model\'s own rounding — while '
               'the property itself is judged on the library\'s results at 1e-12 x cond); the harness\'s numpy reference for conditioning and coordinates; float rounding; generator coverage (general histories of 6-9 calls; the ill-conditioned, medium-conditioned, duplicate-mode and non-finite-outside classes have 1-4 calls each; layouts, dtypes).')
 TECHNIQUE = 'Lean 4 proof over Mathlib matrices + executable Lean model of basis/fit/compose/remove with differential correspondence on call histories'
-GEN = ['ZernikeCalls', 'ZernikeR', 'Mesh', 'Util', 'UtilWindow', 'UtilCentroid', 'Helper', 'Helper20', 'Hex', 'Extent', 'FieldAccum', 'FieldDispatch', 'FieldIdx', 'FieldMerge']      # every Gen module imported transitively
+GEN = ['ZernikeCalls', 'ZernikeR', 'Mesh', 'Util', 'UtilWindow', 'UtilCentroid', 'UtilRebin', 'Helper', 'Helper20', 'Hex', 'Extent', 'FieldAccum', 'FieldDispatch', 'FieldIdx', 'FieldMerge']      # every Gen module imported transitively
 OPS = ['C11', 'C12']
 RULE = ('extra cases: a mode requested twice (observed: remove unchanged, coefficient split) and OPDs with NaN / +-inf outside the mask (must give exactly the result of zeros there); cases = call histories of 6-9 compose/fit/remove calls in one process on one mask (circular / hexagonal / segmented / off-centre / '
         'irregular weighted, sizes 9..22 even and odd; all built by the harness, not by the library): same modes with default then caller-supplied (shifted, rotated) coordinates, both '
